@@ -122,32 +122,47 @@ theorem create_link_file_test_counterexample :
     runSetter blockMetadata otherFileSection withExtents = (withExtents, some .valueError) := by
   refine ⟨by decide, by decide, by decide⟩
 
-/-! ## Dimension links and the object they are given (open finding `Dimension.link:object-of-another-file`)
+/-! ## Dimension links and the object they are given (finding `C12-dimension-link-object-of-another-file`, repaired)
 
-`Dimension.link_data_array` / `link_data_frame` validate the index, not the object: `create_link` is the first to
-ask where the object lives — after the previous link was removed and the new link group built. -/
+`Dimension.link_data_array` / `link_data_frame` used to validate the index, not the object: `create_link` was the
+first to ask where the object lives — after the previous link was removed and the new link group built.  They now
+ask with their other pre-checks (`.guard .sameFile` at the head of the generated lists), and the discipline holds. -/
 
-/-- the full statement: whatever object a dimension is asked to link, a refusal leaves the descriptor as it was -/
-def dimension_link_object_refused_unchanged : Prop :=
-  ∀ (steps : List RStep), steps ∈ [dimensionLinkDataArray, dimensionLinkDataFrame] → ∀ (a : Arg) (f : File) (e : Err),
-    (run RoleWrite.sys a steps f).2 = some e → (run RoleWrite.sys a steps f).1 = f
+/-- what the two functions do with the object obeys the discipline -/
+theorem dimension_link_functions_safe :
+    ∀ steps ∈ [dimensionLinkDataArray, dimensionLinkDataFrame], safe RoleWrite.sys steps = true := by decide
 
-/-- it holds for every object of this file: nothing that concerns the object refuses at all -/
-theorem dimension_link_object_refused_unchanged_partial (steps : List RStep)
+/-- **whatever object a dimension is asked to link** (class × held by the block / another block / ANOTHER FILE /
+deleted), whatever the descriptor held before: a refusal leaves the descriptor as it was — the previous link stands,
+no link group has been built -/
+theorem dimension_link_object_refused_unchanged (steps : List RStep)
+    (hs : steps ∈ [dimensionLinkDataArray, dimensionLinkDataFrame]) (a : Arg) (f : File) (e : Err)
+    (he : (run RoleWrite.sys a steps f).2 = some e) : (run RoleWrite.sys a steps f).1 = f :=
+  safe_refused_unchanged RoleWrite.sys role_sound steps (dimension_link_functions_safe steps hs) a f e he
+
+/-- an object of this file is never refused on account of the object, and becomes the target -/
+theorem dimension_link_object_accepted (steps : List RStep)
     (hs : steps ∈ [dimensionLinkDataArray, dimensionLinkDataFrame]) (a : Arg) (hp : a.place ≠ .otherFile) (f : File) :
-    (run RoleWrite.sys a steps f).2 = none := by
+    (run RoleWrite.sys a steps f).2 = none ∧ (run RoleWrite.sys a steps f).1.link = some a.target := by
   simp only [List.mem_cons, List.mem_nil_iff, or_false] at hs
   cases hpl : a.place <;> simp [hpl] at hp <;> rcases hs with h | h <;> subst h <;>
     simp [dimensionLinkDataArray, dimensionLinkDataFrame, run, step, RoleWrite.sys, RoleWrite.check, RoleWrite.exec, hpl]
 
 def otherFileArray : Arg := ⟨.array, .otherFile, false, false, 7, 5⟩
 
-/-- an array of another file: refused, the previous link is gone and a link group without target stands in its place -/
-theorem dimension_link_object_refused_unchanged_counterexample : ¬ dimension_link_object_refused_unchanged := by
-  intro h
-  have := h dimensionLinkDataArray (by simp) otherFileArray ⟨some 3, some false, 1⟩ .valueError (by decide)
-  revert this
-  decide
+/-- `Dimension.link_data_array` as it was before the repair: nothing asks where the object lives before
+`create_link` does -/
+def dimensionLinkDataArrayNoFileTest : List RStep := dimensionLinkDataArray.erase (.guard .sameFile)
+
+/-- **before the repair**: an array of another file was refused after the previous link was gone and a link group
+without target stood in its place; the function as it is refuses the same call and the link stands -/
+theorem dimension_link_object_before_fix_counterexample :
+    safe RoleWrite.sys dimensionLinkDataArrayNoFileTest = false ∧
+    run RoleWrite.sys otherFileArray dimensionLinkDataArrayNoFileTest ⟨some 3, some false, 1⟩ =
+      (⟨none, some false, 1⟩, some .valueError) ∧
+    run RoleWrite.sys otherFileArray dimensionLinkDataArray ⟨some 3, some false, 1⟩ =
+      (⟨some 3, some false, 1⟩, some .valueError) := by
+  refine ⟨by decide, by decide, by decide⟩
 
 /-- a history of role-link assignments on one owner (any of the eleven setters, any objects, refusals injected at any
 point): the owner's group ends as if the refused assignments had never been made -/
